@@ -819,3 +819,62 @@ func init() {
 		}
 	}
 }
+
+// ---- C03 (continued): frames whose body is larger than 64 KiB - the high bytes of a 4-byte length (and of a checksum over
+// that much data) only differ from zero then, so only then can a hand-rolled shift or a transposed byte show ----
+func init() {
+	prev := suites["C03"]
+	suites["C03"] = func(o *Out, g *Gen, thorough bool) map[string]any {
+		res := prev(o, g, thorough)
+		for _, ft := range frameTypes() {
+			made := 0
+			for _, e := range schema.Tables[ft.Frame.Tbl].Entries {
+				if made >= 2 {
+					break
+				}
+				bt := schema.Types[e.Ty]
+				for i, op := range bt.fieldOps() {
+					var big *Val
+					switch {
+					case op.K == "nums" && op.W >= 2 && (op.CW >= 4 || 65535*op.W > 70000):
+						n := 70000/op.W + 7
+						big = &Val{K: 'N'}
+						for k := 0; k < n; k++ {
+							big.Ns = append(big.Ns, g.scalar(op.W))
+						}
+					case op.K == "vstr" && op.PW >= 4:
+						big = &Val{K: 's', S: bytes.Repeat([]byte("0123456789abcdef"), 4400)}
+					case op.K == "fixeds" && op.N >= 2 && (op.CW >= 4 || 65535*op.N > 70000):
+						big = &Val{K: 'S'}
+						for k := 0; k < 70000/op.N+7; k++ {
+							big.Ss = append(big.Ss, g.canonFixed(op.N, byte(op.Pad), op.Left))
+						}
+					}
+					if big == nil {
+						continue
+					}
+					body := g.msg(bt.ID, true, 0)
+					body.Fs[i] = big
+					fv := g.msgWithKey(ft.ID, e, true)
+					fv.Fs[len(ft.Frame.Hdr)+1] = body
+					ref, ok := renderPinned(fv)
+					r := corrEnc(o, fv, nil, BufMode{})
+					o.stat("frame-over-64KiB")
+					made++
+					if ok && r.Class == "ok" && !bytes.Equal(ref, r.Appended) {
+						at := 0
+						for at < len(ref) && at < len(r.Appended) && ref[at] == r.Appended[at] {
+							at++
+						}
+						lo, hi := max(0, at-6), min(len(ref), at+6)
+						hi2 := min(len(r.Appended), at+6)
+						o.violate(Violation{Property: "C03", Kind: "direct", What: fmt.Sprintf("a %s frame with a body of %d bytes differs from the pinned layout at offset %d (the numbers of a frame - header fields, length, checksum - are in the protocol's byte order)", ft.QName(), len(ref), at),
+							Case: "enc - " + trunc(fv.String(), 300) + " …", Expected: "… " + hexOf(ref[lo:hi]) + " …", Observed: "… " + hexOf(r.Appended[lo:hi2]) + " …", Key: "bigframe:" + ft.QName()})
+					}
+					break
+				}
+			}
+		}
+		return res
+	}
+}
